@@ -249,12 +249,14 @@ impl Indexable for ast::Defset {
     fn index(&self, ctx: &mut IndexCtx) -> Option<Self::Output> {
         let (name, define_loc) = utils::identifier(&self.name()?, ctx)?;
         let typ = self.r#type()?.index(ctx)?;
-        let defset = Defset::new(name, typ, define_loc);
+        let defset = Defset::new(name.clone(), typ, define_loc);
         let defset_id = ctx.symbol_map.add_defset(defset);
 
         ctx.scopes.push(ScopeKind::Defset(defset_id));
         self.statement_list()?.index(ctx);
         ctx.scopes.pop();
+        // the set is a value of the file from here on
+        ctx.symbol_map.declare_defset(name, defset_id);
 
         None
     }
